@@ -196,6 +196,33 @@ SMALL = {
         },
         "marks": {"em": {}},
     },
+    # AT: atom nodes that have content (a footnote; a boxed group of paragraphs): one unit for editing, ordinary nodes
+    # for positions and sizes
+    "at": {
+        "nodes": {
+            "doc": {"content": "block+"},
+            "p": {"content": "inline*", "group": "block"},
+            "box": {"content": "p+", "group": "block", "atom": True},
+            "fn": {"content": "text*", "inline": True, "group": "inline", "atom": True},
+            "text": {"group": "inline"},
+            "br": {"inline": True, "group": "inline"},
+        },
+        "marks": {"em": {}, "link": {"attrs": {"href": {}}, "inclusive": False}},
+    },
+    # BM: marks on block nodes (track-change / comment style): some containers allow them, others do not
+    "bm": {
+        "nodes": {
+            "doc": {"content": "block+", "marks": "ins note"},
+            "p": {"content": "inline*", "group": "block"},
+            "bq": {"content": "block+", "group": "block"},
+            "sec": {"content": "block+", "group": "block", "marks": "_"},
+            "ul": {"content": "li+", "group": "block", "marks": "ins"},
+            "li": {"content": "p block*"},
+            "text": {"group": "inline"},
+            "br": {"inline": True, "group": "inline"},
+        },
+        "marks": {"em": {}, "ins": {"attrs": {"user": {"default": "a"}}}, "note": {"attrs": {"id": {}}, "excludes": ""}},
+    },
     "s4": {
         "nodes": {
             "doc": {"content": "(para | plain)+"},
